@@ -32,9 +32,21 @@ pub fn hostile_fragment(r: &mut Rng, max: usize) -> Vec<u8> {
         1 => ra::F_RESPONSE,
         2 => ra::F_UNSOL_RESPONSE,
         3 => ra::F_CONFIRM,
-        _ => r.pick_copy(&[1u8, 2, 3, 4, 5, 6, 7, 9, 11, 13, 20, 21, 22, 23, 24, 25, 26, 27, 28, 29, 30, 129, 130]),
+        _ => r.pick_copy(&[
+            1u8, 2, 3, 4, 5, 6, 7, 9, 11, 13, 20, 21, 22, 23, 24, 25, 26, 27, 28, 29, 30, 129, 130,
+        ]),
     };
-    let ctrl = if r.chance(1, 8) { r.u8() } else { 0xC0 | seq | if r.chance(1, 10) { ra::CON } else { 0 } | if func == ra::F_UNSOL_RESPONSE { ra::UNS } else { 0 } };
+    let ctrl = if r.chance(1, 8) {
+        r.u8()
+    } else {
+        0xC0 | seq
+            | if r.chance(1, 10) { ra::CON } else { 0 }
+            | if func == ra::F_UNSOL_RESPONSE {
+                ra::UNS
+            } else {
+                0
+            }
+    };
     let mut f = vec![ctrl, func];
     if func == ra::F_RESPONSE || func == ra::F_UNSOL_RESPONSE {
         f.push(r.u8());
@@ -42,8 +54,16 @@ pub fn hostile_fragment(r: &mut Rng, max: usize) -> Vec<u8> {
     }
     let nh = r.below(5);
     for _ in 0..nh {
-        let (g, v) = if r.chance(1, 10) { (r.u8(), r.u8()) } else { *r.pick(&vars) };
-        let q = if r.chance(1, 12) { r.u8() } else { r.pick_copy(&[0x00u8, 0x01, 0x06, 0x07, 0x08, 0x17, 0x28, 0x5B]) };
+        let (g, v) = if r.chance(1, 10) {
+            (r.u8(), r.u8())
+        } else {
+            *r.pick(&vars)
+        };
+        let q = if r.chance(1, 12) {
+            r.u8()
+        } else {
+            r.pick_copy(&[0x00u8, 0x01, 0x06, 0x07, 0x08, 0x17, 0x28, 0x5B])
+        };
         f.extend_from_slice(&[g, v, q]);
         let kind = ra::kind(g, v);
         let sz = match kind {
@@ -95,7 +115,11 @@ pub fn hostile_fragment(r: &mut Rng, max: usize) -> Vec<u8> {
                 let c = if r.chance(1, 5) { r.u8() } else { 1 };
                 f.push(c);
                 let inner = r.range(0, 40) as usize;
-                let declared = if r.chance(1, 3) { r.u16() } else { inner as u16 };
+                let declared = if r.chance(1, 3) {
+                    r.u16()
+                } else {
+                    inner as u16
+                };
                 f.extend_from_slice(&declared.to_le_bytes());
                 f.extend(r.bytes(inner));
                 count = 0;
@@ -163,15 +187,41 @@ fn record_panics(a: &ShardArgs, context: &str, input: &[u8], extra: J) -> bool {
     for p in ps {
         let loc = norm_location(&p.location);
         if p.message.starts_with("verif: spin") {
-            out::violation(P, "C01.spin", "endpoint", J::obj(vec![("why", J::s(p.message.clone())), ("context", J::s(context)), ("extra", extra.clone())]), J::obj(vec![("check", J::s("c01")), ("seed", J::U(a.seed)), ("shard", J::U(a.shard)), ("nshards", J::U(a.nshards))]));
+            out::violation(
+                P,
+                "C01.spin",
+                "endpoint",
+                J::obj(vec![
+                    ("why", J::s(p.message.clone())),
+                    ("context", J::s(context)),
+                    ("extra", extra.clone()),
+                ]),
+                J::obj(vec![
+                    ("check", J::s("c01")),
+                    ("seed", J::U(a.seed)),
+                    ("shard", J::U(a.shard)),
+                    ("nshards", J::U(a.nshards)),
+                ]),
+            );
             continue;
         }
         out::violation(
             P,
             "C01.panic",
             &loc,
-            J::obj(vec![("message", J::s(p.message.clone())), ("location", J::s(p.location.clone())), ("context", J::s(context)), ("input", J::hex(&input[..input.len().min(400)])), ("extra", extra.clone())]),
-            J::obj(vec![("check", J::s("c01")), ("seed", J::U(a.seed)), ("shard", J::U(a.shard)), ("nshards", J::U(a.nshards))]),
+            J::obj(vec![
+                ("message", J::s(p.message.clone())),
+                ("location", J::s(p.location.clone())),
+                ("context", J::s(context)),
+                ("input", J::hex(&input[..input.len().min(400)])),
+                ("extra", extra.clone()),
+            ]),
+            J::obj(vec![
+                ("check", J::s("c01")),
+                ("seed", J::U(a.seed)),
+                ("shard", J::U(a.shard)),
+                ("nshards", J::U(a.nshards)),
+            ]),
         );
     }
     any
@@ -190,11 +240,18 @@ fn direct(a: &ShardArgs) {
         let f = hostile_fragment(&mut r, maxlen);
         out::eval(1);
         for zl in [false, true] {
-            let opts = ParseOptions { parse_zero_length_strings: zl };
+            let opts = ParseOptions {
+                parse_zero_length_strings: zl,
+            };
             let res = std::panic::catch_unwind(std::panic::AssertUnwindSafe(|| {
                 let mut sink = 0usize;
                 if let Ok(p) = ParsedFragment::parse(opts, &f) {
-                    for lvl in [AppDecodeLevel::Nothing, AppDecodeLevel::Header, AppDecodeLevel::ObjectHeaders, AppDecodeLevel::ObjectValues] {
+                    for lvl in [
+                        AppDecodeLevel::Nothing,
+                        AppDecodeLevel::Header,
+                        AppDecodeLevel::ObjectHeaders,
+                        AppDecodeLevel::ObjectValues,
+                    ] {
                         sink += format!("{}", p.display(lvl)).len();
                     }
                     if let Ok(objs) = p.objects {
@@ -213,10 +270,19 @@ fn direct(a: &ShardArgs) {
             }));
             let _ = rec.take();
             if res.is_err() {
-                record_panics(a, "ParsedFragment::parse/display/iterate/extract", &f, J::B(zl));
+                record_panics(
+                    a,
+                    "ParsedFragment::parse/display/iterate/extract",
+                    &f,
+                    J::B(zl),
+                );
             }
         }
-        out::distinct(&format!("direct/f{}/len{}", f.get(1).copied().unwrap_or(0), f.len().min(300) / 50));
+        out::distinct(&format!(
+            "direct/f{}/len{}",
+            f.get(1).copied().unwrap_or(0),
+            f.len().min(300) / 50
+        ));
     }
     // link + transport readers on random / mutated byte streams
     let n2 = a.n(6_000);
@@ -234,7 +300,13 @@ fn direct(a: &ShardArgs) {
                 }
                 _ => {
                     let len = *r.pick(&[0usize, 1, 15, 16, 17, 100, 249, 250]);
-                    let mut fr = rl::Frame::new(r.u8(), if r.bool() { 1024 } else { r.u16() }, r.u16(), &r.bytes(len)).encode();
+                    let mut fr = rl::Frame::new(
+                        r.u8(),
+                        if r.bool() { 1024 } else { r.u16() },
+                        r.u16(),
+                        &r.bytes(len),
+                    )
+                    .encode();
                     match r.below(5) {
                         0 => fr[2] = r.u8(),
                         1 => {
@@ -257,7 +329,18 @@ fn direct(a: &ShardArgs) {
         let discard = r.bool();
         let lvl = r.usize_below(NUM_DECODE_LEVELS);
         out::eval(1);
-        let res = std::panic::catch_unwind(std::panic::AssertUnwindSafe(|| crate::verif::checks::c08::run_reader(outstation, if outstation { 1024 } else { 1 }, rx, &chunks, discard, lvl).fragments.len()));
+        let res = std::panic::catch_unwind(std::panic::AssertUnwindSafe(|| {
+            crate::verif::checks::c08::run_reader(
+                outstation,
+                if outstation { 1024 } else { 1 },
+                rx,
+                &chunks,
+                discard,
+                lvl,
+            )
+            .fragments
+            .len()
+        }));
         if res.is_err() {
             record_panics(a, "transport::real::Reader::read", &bytes, J::Null);
         } else {
@@ -284,8 +367,16 @@ async fn out_scenario(a: &ShardArgs, idx: u64) {
     cfg.max_unsol_retries = *r.pick(&[None, Some(0usize), Some(2)]);
     cfg.unsol_retry_delay_ms = *r.pick(&[0u64, 10, 1000]);
     cfg.keep_alive_ms = if r.chance(1, 4) { Some(500) } else { None };
-    cfg.max_controls = if r.chance(1, 5) { Some(r.range(0, 4) as u16) } else { None };
-    cfg.max_read_headers = if r.chance(1, 5) { Some(r.range(1, 5) as u16) } else { None };
+    cfg.max_controls = if r.chance(1, 5) {
+        Some(r.range(0, 4) as u16)
+    } else {
+        None
+    };
+    cfg.max_read_headers = if r.chance(1, 5) {
+        Some(r.range(1, 5) as u16)
+    } else {
+        None
+    };
     for t in 0..8 {
         cfg.event_cfg[t] = *r.pick(&[0u16, 1, 2, 5, 50]);
     }
@@ -303,8 +394,18 @@ async fn out_scenario(a: &ShardArgs, idx: u64) {
             P,
             &format!("C01.{rule}"),
             sig,
-            J::obj(vec![("why", J::s(why)), ("config", cfg.to_json()), ("history", J::arr(hist.iter().rev().take(16).rev().cloned()))]),
-            J::obj(vec![("check", J::s("c01")), ("seed", J::U(a.seed)), ("shard", J::U(a.shard)), ("nshards", J::U(a.nshards)), ("scenario", J::U(idx))]),
+            J::obj(vec![
+                ("why", J::s(why)),
+                ("config", cfg.to_json()),
+                ("history", J::arr(hist.iter().rev().take(16).rev().cloned())),
+            ]),
+            J::obj(vec![
+                ("check", J::s("c01")),
+                ("seed", J::U(a.seed)),
+                ("shard", J::U(a.shard)),
+                ("nshards", J::U(a.nshards)),
+                ("scenario", J::U(idx)),
+            ]),
         );
     };
     let mut seq = r.below(16) as u8;
@@ -313,13 +414,24 @@ async fn out_scenario(a: &ShardArgs, idx: u64) {
         0 => "idle",
         1 => {
             seq = (seq + 1) & 15;
-            sim.send(&ra::B::request(ra::F_READ, seq).all(60, 2).all(60, 3).all(60, 4).all(60, 1).done());
+            sim.send(
+                &ra::B::request(ra::F_READ, seq)
+                    .all(60, 2)
+                    .all(60, 3)
+                    .all(60, 4)
+                    .all(60, 1)
+                    .done(),
+            );
             settle().await;
             "sol-confirm-wait"
         }
         2 => {
             seq = (seq + 1) & 15;
-            sim.send(&ra::B::request(ra::F_SELECT, seq).raw(&gen::control_objects(&mut r, 1)).done());
+            sim.send(
+                &ra::B::request(ra::F_SELECT, seq)
+                    .raw(&gen::control_objects(&mut r, 1))
+                    .done(),
+            );
             settle().await;
             "select-pending"
         }
@@ -333,7 +445,13 @@ async fn out_scenario(a: &ShardArgs, idx: u64) {
         4 => {
             // overflow while a response awaits its confirm
             seq = (seq + 1) & 15;
-            sim.send(&ra::B::request(ra::F_READ, seq).all(60, 2).all(60, 3).all(60, 4).done());
+            sim.send(
+                &ra::B::request(ra::F_READ, seq)
+                    .all(60, 2)
+                    .all(60, 3)
+                    .all(60, 4)
+                    .done(),
+            );
             settle().await;
             let mut rr = r.fork();
             sim.db(|db| some_events(db, &mut rr, npoints, 60, 9000));
@@ -363,7 +481,13 @@ async fn out_scenario(a: &ShardArgs, idx: u64) {
                     let body = hostile_fragment(&mut r, 200);
                     let mut seg = vec![0xC0 | (r.u8() & 0x3F)];
                     seg.extend(body);
-                    let mut fr = rl::Frame::new(0xC4, cfg.out_addr, cfg.master_addr, &seg[..seg.len().min(250)]).encode();
+                    let mut fr = rl::Frame::new(
+                        0xC4,
+                        cfg.out_addr,
+                        cfg.master_addr,
+                        &seg[..seg.len().min(250)],
+                    )
+                    .encode();
                     let k = r.usize_below(fr.len());
                     fr[k] ^= 1 << r.below(8);
                     bytes = fr;
@@ -372,7 +496,15 @@ async fn out_scenario(a: &ShardArgs, idx: u64) {
                     // every link function code, odd addresses
                     for _ in 0..r.range(1, 6) {
                         let len = *r.pick(&[0usize, 1, 5, 250]);
-                        bytes.extend(rl::Frame::new(r.u8(), *r.pick(&[cfg.out_addr, 0xFFFF, 0xFFFC, 0xFFF0, 3]), *r.pick(&[cfg.master_addr, 0xFFFF, 0xFFFC, 7]), &r.bytes(len)).encode());
+                        bytes.extend(
+                            rl::Frame::new(
+                                r.u8(),
+                                *r.pick(&[cfg.out_addr, 0xFFFF, 0xFFFC, 0xFFF0, 3]),
+                                *r.pick(&[cfg.master_addr, 0xFFFF, 0xFFFC, 7]),
+                                &r.bytes(len),
+                            )
+                            .encode(),
+                        );
                     }
                 }
                 _ => {
@@ -382,7 +514,9 @@ async fn out_scenario(a: &ShardArgs, idx: u64) {
                         let mut seg = vec![rt::header(r.chance(1, 3), r.chance(1, 3), r.u8())];
                         let n = *r.pick(&[0usize, 1, 249]);
                         seg.extend(r.bytes(n));
-                        bytes.extend(rl::Frame::new(0xC4, cfg.out_addr, cfg.master_addr, &seg).encode());
+                        bytes.extend(
+                            rl::Frame::new(0xC4, cfg.out_addr, cfg.master_addr, &seg).encode(),
+                        );
                     }
                 }
             }
@@ -394,19 +528,40 @@ async fn out_scenario(a: &ShardArgs, idx: u64) {
             }
         } else {
             // application fragment in valid frames (sometimes maximal size)
-            let max = if r.chance(1, 4) { cfg.rx } else { *r.pick(&[30usize, 249, 600]) }.min(cfg.rx + 300);
+            let max = if r.chance(1, 4) {
+                cfg.rx
+            } else {
+                *r.pick(&[30usize, 249, 600])
+            }
+            .min(cfg.rx + 300);
             let frag = if r.chance(1, 6) {
                 // maximal-size control request against a small transmit buffer
                 let per = (cfg.rx.min(2040) / 13).max(2) as u64;
-                let f = r.pick_copy(&[ra::F_SELECT, ra::F_OPERATE, ra::F_DIRECT_OPERATE, ra::F_DIRECT_OPERATE_NR]);
+                let f = r.pick_copy(&[
+                    ra::F_SELECT,
+                    ra::F_OPERATE,
+                    ra::F_DIRECT_OPERATE,
+                    ra::F_DIRECT_OPERATE_NR,
+                ]);
                 seq = (seq + 1) & 15;
-                ra::B::request(f, seq).raw(&gen::control_objects_n(&mut r, 1, per)).done()
+                ra::B::request(f, seq)
+                    .raw(&gen::control_objects_n(&mut r, 1, per))
+                    .done()
             } else {
                 hostile_fragment(&mut r, max)
             };
             let src = if r.chance(1, 8) { 7 } else { cfg.master_addr };
-            let dest = if r.chance(1, 10) { 0xFFFD + r.below(3) as u16 } else { cfg.out_addr };
-            label = format!("fragment/f{}/{}B {}", frag.get(1).copied().unwrap_or(0), frag.len(), hex(&frag[..frag.len().min(24)]));
+            let dest = if r.chance(1, 10) {
+                0xFFFD + r.below(3) as u16
+            } else {
+                cfg.out_addr
+            };
+            label = format!(
+                "fragment/f{}/{}B {}",
+                frag.get(1).copied().unwrap_or(0),
+                frag.len(),
+                hex(&frag[..frag.len().min(24)])
+            );
             let mut tseq = sim.tseq;
             let bytes = encode_fragment(true, dest, src, &frag, &mut tseq);
             sim.tseq = tseq;
@@ -420,37 +575,79 @@ async fn out_scenario(a: &ShardArgs, idx: u64) {
         let ex0 = settle_exhausted();
         let rounds = settle().await;
         if settle_exhausted() > ex0 {
-            viol("spin", state, format!("endpoint did not become quiescent after {rounds} scheduler rounds"), &hist);
+            viol(
+                "spin",
+                state,
+                format!("endpoint did not become quiescent after {rounds} scheduler rounds"),
+                &hist,
+            );
             break;
         }
         // let timers run a little (retries, keep-alive), then check quiescence again
         sim.advance(r.range(0, 60)).await;
         let _ = sim.collect();
-        out::distinct(&format!("out/{state}/{}/{}", label.split('/').take(2).collect::<Vec<_>>().join("/"), if cfg.discard { "discard" } else { "close" }));
-        if record_panics(a, "outstation session", &[], J::arr(hist.iter().rev().take(8).rev().cloned())) {
+        out::distinct(&format!(
+            "out/{state}/{}/{}",
+            label.split('/').take(2).collect::<Vec<_>>().join("/"),
+            if cfg.discard { "discard" } else { "close" }
+        ));
+        if record_panics(
+            a,
+            "outstation session",
+            &[],
+            J::arr(hist.iter().rev().take(8).rev().cloned()),
+        ) {
             break;
         }
         if sim.pipe.dropped() {
             if cfg.discard && !sim.task_finished() {
                 // in discard mode garbage never ends the session; only I/O errors do
-                viol("session_ended_in_discard_mode", state, "the session ended although the link error mode is Discard".into(), &hist);
+                viol(
+                    "session_ended_in_discard_mode",
+                    state,
+                    "the session ended although the link error mode is Discard".into(),
+                    &hist,
+                );
             }
-            out::count(if framing_error { "close_mode_session_ended_on_framing_error" } else { "session_ended" }, 1);
+            out::count(
+                if framing_error {
+                    "close_mode_session_ended_on_framing_error"
+                } else {
+                    "session_ended"
+                },
+                1,
+            );
             sim.reconnect_preempt().await;
             let _ = sim.collect();
             hist.push("(session had ended: new connection)".into());
         } else if framing_error && !cfg.discard {
-            viol("close_mode_no_error", state, "framing error in Close mode did not end the session".into(), &hist);
+            viol(
+                "close_mode_no_error",
+                state,
+                "framing error in Close mode did not end the session".into(),
+                &hist,
+            );
         }
     }
     if sim.task_finished() {
         record_panics(a, "outstation session", &[], J::arr(hist.iter().cloned()));
-        viol("task_ended", state, "the outstation server task ended".into(), &hist);
+        viol(
+            "task_ended",
+            state,
+            "the outstation server task ended".into(),
+            &hist,
+        );
         return;
     }
     // ---------------- liveness probes
     // flush whatever partial frame / fragment is pending with a clean link status request
-    let probe = rl::Frame::new(rl::F_REQUEST_LINK_STATUS | rl::DIR, cfg.out_addr, cfg.master_addr, &[]).encode();
+    let probe = rl::Frame::new(
+        rl::F_REQUEST_LINK_STATUS | rl::DIR,
+        cfg.out_addr,
+        cfg.master_addr,
+        &[],
+    )
+    .encode();
     let mut flush = vec![0u8; 0];
     // discard mode: a damaged header may make the parser wait for up to 282 more bytes; feed filler frames
     for _ in 0..2 {
@@ -465,9 +662,16 @@ async fn out_scenario(a: &ShardArgs, idx: u64) {
     sim.pipe.push(&probe);
     settle().await;
     let rx = sim.collect();
-    let answered = rx.iter().any(|x| matches!(x, Rx::Link { frame, .. } if frame.ctrl & 0x4F == rl::F_LINK_STATUS));
+    let answered = rx
+        .iter()
+        .any(|x| matches!(x, Rx::Link { frame, .. } if frame.ctrl & 0x4F == rl::F_LINK_STATUS));
     if !answered {
-        viol("wedged_link", state, "link status request not answered after the hostile input".into(), &hist);
+        viol(
+            "wedged_link",
+            state,
+            "link status request not answered after the hostile input".into(),
+            &hist,
+        );
     } else {
         out::count("probe_link_status_ok", 1);
     }
@@ -477,21 +681,39 @@ async fn out_scenario(a: &ShardArgs, idx: u64) {
     // make sure the transport assembler is not in the middle of something: send FIR+FIN segment
     sim.send(&rd);
     settle().await;
-    let mut got = sim.collect().iter().filter_map(|x| x.fragment().map(|f| f.to_vec())).any(|f| f.len() >= 2 && f[1] == ra::F_RESPONSE && f[0] & 0x0F == pseq);
+    let mut got = sim
+        .collect()
+        .iter()
+        .filter_map(|x| x.fragment().map(|f| f.to_vec()))
+        .any(|f| f.len() >= 2 && f[1] == ra::F_RESPONSE && f[0] & 0x0F == pseq);
     let mut waited = 0u64;
     let bound = cfg.confirm_timeout_ms * 4 + cfg.unsol_retry_delay_ms + 2000;
     while !got && waited < bound {
         let step = cfg.confirm_timeout_ms;
         sim.advance(step).await;
         waited += step;
-        got = sim.collect().iter().filter_map(|x| x.fragment().map(|f| f.to_vec())).any(|f| f.len() >= 2 && f[1] == ra::F_RESPONSE && f[0] & 0x0F == pseq);
+        got = sim
+            .collect()
+            .iter()
+            .filter_map(|x| x.fragment().map(|f| f.to_vec()))
+            .any(|f| f.len() >= 2 && f[1] == ra::F_RESPONSE && f[0] & 0x0F == pseq);
     }
     if !got {
-        viol("wedged_app", state, format!("READ class 0 probe not answered within {bound} virtual ms"), &hist);
+        viol(
+            "wedged_app",
+            state,
+            format!("READ class 0 probe not answered within {bound} virtual ms"),
+            &hist,
+        );
     } else {
         out::count("probe_read_ok", 1);
     }
-    record_panics(a, "outstation session (probe)", &[], J::arr(hist.iter().cloned()));
+    record_panics(
+        a,
+        "outstation session (probe)",
+        &[],
+        J::arr(hist.iter().cloned()),
+    );
     if a.replay.is_some() {
         for l in crate::verif::trace::tail(80) {
             eprintln!("TRACE {l}");
@@ -501,12 +723,19 @@ async fn out_scenario(a: &ShardArgs, idx: u64) {
         }
     }
     if out::sample_count() < 2 {
-        out::sample(J::obj(vec![("role", J::s("outstation")), ("state", J::s(state)), ("history", J::arr(hist.iter().cloned()))]));
+        out::sample(J::obj(vec![
+            ("role", J::s("outstation")),
+            ("state", J::s(state)),
+            ("history", J::arr(hist.iter().cloned())),
+        ]));
     }
 }
 
 pub fn run(a: &ShardArgs) -> Result<(), String> {
-    let only: Option<u64> = a.replay.as_ref().and_then(|p| super::common::replay_scenario(p));
+    let only: Option<u64> = a
+        .replay
+        .as_ref()
+        .and_then(|p| super::common::replay_scenario(p));
     if only.is_none() {
         direct(a);
     }
